@@ -21,7 +21,19 @@ def gen_gff():
     body.append('Definition quote_safe_chars : str := %s.' % blit(safe))
     fe = G.filename_extensions_fts_gff
     need(fe == ['gff'], 'filename_extensions_fts_gff changed: %r' % (fe,))
-    emit('G_gff', 'sugar._io.gff.copyattrs, dir(sugar.core.meta.Attr), urllib.parse.quote safe set', '\n'.join(body) + '\n')
+    # read_fts / write_fts dispatch: the registered feature formats in the order detect_ext() tries them, with their extensions
+    from sugar._io.util import EPS, FMTS_ALL
+    rows = []
+    for fmt in FMTS_ALL['fts']:
+        mod = EPS['fts'][fmt].load()
+        exts = getattr(mod, 'filename_extensions_fts_' + fmt, [])
+        need(isinstance(exts, (list, tuple)) and all(isinstance(e, str) for e in exts), 'filename_extensions_fts_%s: %r' % (fmt, exts))
+        need(fmt == fmt.lower(), 'format name %r is not lower case (read_fts lower-cases fmt before the lookup)' % fmt)
+        rows.append((fmt, list(exts), hasattr(mod, 'read_fts_' + fmt), hasattr(mod, 'write_fts_' + fmt)))
+    need(all(any(r[0] == f and r[2] and r[3] for r in rows) for f in ('gff', 'tsv', 'csv')), 'gff/tsv/csv no longer have a feature reader and writer')
+    body.append('Definition fts_exts : list (str * list str) :=\n  [' + '; '.join('(%s, [%s])' % (blit(f), '; '.join(blit(e) for e in ex))
+                                                                             for f, ex, _, _ in rows) + '].')
+    emit('G_gff', 'sugar._io.gff.copyattrs, dir(sugar.core.meta.Attr), urllib.parse.quote safe set, sugar._io.util.FMTS_ALL[fts] + filename_extensions_fts_*', '\n'.join(body) + '\n')
 
 
 GENERATORS = [gen_gff]
